@@ -4,7 +4,9 @@ import (
 	"encoding/json"
 	"fmt"
 	"math/rand"
+	"reflect"
 	"sync"
+	"sync/atomic"
 	"time"
 
 	"github.com/anthdm/hollywood/actor"
@@ -31,6 +33,29 @@ type procSchedCase struct {
 	Seed       int64    `json:"seed"`
 	Choices    []int    `json:"choices"`
 	Mode       string   `json:"mode"`
+	// Script: rules in the format of the proc family (cmd/hv/proc.go), applied in addition to
+	// panic_on / self_poison: {"inc": i (0 = any), "on": "I"|"S"|"X"|n,
+	// "do": [["send",n],["sendnil",n],["poison"],["stop"],["panic"],["panic_internal"]]}
+	Script []psRule `json:"script"`
+	// Trace (family actorsched): every kept execution comes with its trace restricted to the
+	// operations on the target actor (atrace) and with the final state of its inbox
+	Trace bool `json:"trace"`
+	Keep  int  `json:"keep"`
+}
+
+type psRule struct {
+	Inc int     `json:"inc"`
+	On  any     `json:"on"`
+	Do  [][]any `json:"do"`
+}
+
+// aEvent: one operation on the target actor: thread (0 spawner, then senders, then poisoners,
+// then the target inbox's workers in order of appearance), operation, arguments, results
+type aEvent struct {
+	T  int    `json:"t"`
+	Op string `json:"op"`
+	A  []any  `json:"a,omitempty"`
+	R  []any  `json:"r,omitempty"`
 }
 
 type psRecv struct {
@@ -48,6 +73,14 @@ type psObs struct {
 	Dead     []int    `json:"dead"` // payloads reported as dead letters
 	// for every Stop/Poison context created: did it become done
 	PillsDone []bool `json:"pills_done"`
+	// family actorsched only
+	ATrace     []aEvent `json:"atrace,omitempty"`
+	Status     *int32   `json:"status,omitempty"`     // final procStatus of the target's inbox
+	Registered *bool    `json:"registered,omitempty"` // target still in the registry
+	Stranded   []any    `json:"stranded,omitempty"`   // what is left in the target's ring: payloads, "pill:<graceful>"
+	Threads    int      `json:"threads,omitempty"`
+	// two threads ran the actor's code at once (spawner inside process.Start / a worker inside Inbox.run)
+	HolderOverlap bool `json:"holder_overlap,omitempty"`
 }
 
 type psWorld struct {
@@ -61,6 +94,9 @@ type psWorld struct {
 	dead    []int
 	sent    []int
 	pills   []interface{ Err() error }
+	// the target inbox's status word and ring, as the shims see them
+	stObj *int32
+	rgObj any
 }
 
 type psActor struct {
@@ -98,10 +134,55 @@ func (a *psActor) Receive(c *actor.Context) {
 			w.mu.Lock()
 		}
 	}
+	var acts [][]any
+	for _, r := range w.c.Script {
+		if (r.Inc == 0 || r.Inc == a.inc) && psSameKey(r.On, key) {
+			acts = r.Do
+			break
+		}
+	}
 	w.mu.Unlock()
+	for _, act := range acts {
+		kind, _ := act[0].(string)
+		n := 0
+		if len(act) > 1 {
+			if f, ok := act[1].(float64); ok {
+				n = int(f)
+			}
+		}
+		switch kind {
+		case "send", "sendnil":
+			w.mu.Lock()
+			w.sent = append(w.sent, n)
+			w.mu.Unlock()
+			if kind == "send" {
+				c.Send(c.PID(), psMsg{n})
+			} else {
+				c.Engine().Send(c.PID(), psMsg{n})
+			}
+		case "poison":
+			c.Engine().Poison(c.PID())
+		case "stop":
+			c.Engine().Stop(c.PID())
+		case "panic":
+			panic("scripted panic")
+		case "panic_internal":
+			panic(&actor.InternalError{From: "script", Err: fmt.Errorf("scripted")})
+		}
+	}
 	if boom {
 		panic("scripted panic")
 	}
+}
+
+func psSameKey(a, b any) bool {
+	if f, ok := a.(float64); ok {
+		a = int(f)
+	}
+	if f, ok := b.(float64); ok {
+		b = int(f)
+	}
+	return a == b
 }
 
 func msgKey(m any) any {
@@ -151,6 +232,9 @@ func procScenario(c procSchedCase) func() vsched.Scenario {
 						w.mu.Lock()
 						w.incs++
 						inc := w.incs
+						if c.Trace && w.stObj == nil {
+							w.stObj, w.rgObj = actor.VerifInboxObjs(e, target)
+						}
 						w.mu.Unlock()
 						return &psActor{w: w, inc: inc}
 					}, "t", actor.WithID("a"), actor.WithMaxRestarts(c.MaxRestarts), actor.WithRestartDelay(time.Microsecond))
@@ -193,10 +277,193 @@ func procScenario(c procSchedCase) func() vsched.Scenario {
 				for _, p := range w.pills {
 					o.PillsDone = append(o.PillsDone, p.Err() != nil)
 				}
+				if c.Trace {
+					nInit := 1 + len(c.Senders) + len(c.Poisoners)
+					if c.Poison != "" {
+						nInit++
+					}
+					o.ATrace, o.Threads = restrictTrace(s, nInit, schedObjID(s, w.stObj), schedObjID(s, w.rgObj))
+					o.HolderOverlap = holdersOverlap(o.ATrace, nInit-1)
+					reg := actor.VerifTargetRegistered(e, actor.NewPID(e.Address(), "t/a"))
+					o.Registered = &reg
+					if w.stObj != nil {
+						st := atomic.LoadInt32(w.stObj)
+						o.Status = &st
+					}
+					if (terminal || deadlock) && w.rgObj != nil {
+						// what is left in the ring (the execution is over: emptying it disturbs nothing)
+						if rb, ok := w.rgObj.(interface {
+							PopN(int64) ([]actor.Envelope, bool)
+						}); ok {
+							for {
+								xs, ok := rb.PopN(4096)
+								if !ok {
+									break
+								}
+								for _, x := range xs {
+									o.Stranded = append(o.Stranded, psDescribe(x))
+								}
+							}
+						}
+					}
+				}
 				return o
 			},
+			Describe: psDescriber(c),
 		}
 	}
+}
+
+func psDescriber(c procSchedCase) func(any) any {
+	if !c.Trace {
+		return nil
+	}
+	return psDescribe
+}
+
+// psDescribe renders an envelope of the target as its payload number or "pill:<graceful>".
+func psDescribe(v any) any {
+	if x, ok := v.(actor.Envelope); ok {
+		if m, ok := x.Msg.(psMsg); ok {
+			return m.N
+		}
+		if isPill, g := actor.VerifPill(x.Msg); isPill {
+			return fmt.Sprintf("pill:%v", g)
+		}
+		return fmt.Sprintf("?%T", x.Msg)
+	}
+	return v
+}
+
+// The object ids of the scheduler's events (vsched.Event.Obj, (*vsched.Sched).ObjID) are read through
+// reflection, so that this file also builds against shims that do not record them; the actorsched
+// family then refuses to run, the procsched family does not need them.
+func eventObj(ev vsched.Event) int {
+	f := reflect.ValueOf(ev).FieldByName("Obj")
+	if !f.IsValid() {
+		return 0
+	}
+	return int(f.Int())
+}
+
+func schedHasObjIDs(s *vsched.Sched) bool {
+	return reflect.ValueOf(s).MethodByName("ObjID").IsValid()
+}
+
+func schedObjID(s *vsched.Sched, obj any) int {
+	m := reflect.ValueOf(s).MethodByName("ObjID")
+	if !m.IsValid() || obj == nil {
+		return 0
+	}
+	v := reflect.ValueOf(obj)
+	if v.Kind() == reflect.Pointer && v.IsNil() {
+		return 0
+	}
+	return int(m.Call([]reflect.Value{v})[0].Int())
+}
+
+// holdersOverlap: the predicate of C02_at_most_one_thread_runs_the_actor on a restricted trace (the
+// same as ActorExec.holders_overlap): the spawner from Registry.add to Inbox.Start's Swap and a
+// worker from its first operation to its CAS running->idle never coexist.
+func holdersOverlap(tr []aEvent, nclients int) bool {
+	open := map[int]bool{}
+	num := func(v any) int {
+		switch x := v.(type) {
+		case int32:
+			return int(x)
+		case int:
+			return x
+		case float64:
+			return int(x)
+		}
+		return -1
+	}
+	for _, e := range tr {
+		if !(e.T == 0 || e.T > nclients) {
+			continue
+		}
+		closes := false
+		switch e.Op {
+		case "len":
+			continue
+		case "cas":
+			if len(e.A) == 2 && num(e.A[0]) == 2 && num(e.A[1]) == 3 && !open[e.T] {
+				continue
+			}
+			closes = e.T > nclients && len(e.A) == 2 && num(e.A[0]) == 3 && num(e.A[1]) == 2
+		case "swap":
+			closes = e.T == 0
+		}
+		for j := range open {
+			if j != e.T {
+				return true
+			}
+		}
+		if closes {
+			delete(open, e.T)
+		} else {
+			open[e.T] = true
+		}
+	}
+	return false
+}
+
+// restrictTrace keeps the operations on the target actor: atomic operations on its inbox's status
+// word (stObj), operations on its ring (rgObj), acquisitions of the registry's write lock (add and
+// Remove of the target: nothing else is added or removed while the scheduler runs), registry
+// lookups of the target, and the yields of its receiver.  The shims do not say which id a lookup
+// asked for; of the threads that operate on the target (the initial ones and the workers of its
+// inbox: goroutines whose first operation is a load of stObj) every lookup of another actor is a
+// BroadcastEvent to the event stream, which is registered throughout: that lookup is immediately
+// followed, on the same goroutine, by a push onto a ring that is not the target's.
+func restrictTrace(s *vsched.Sched, nInit, stObj, rgObj int) ([]aEvent, int) {
+	tid := map[int]int{}
+	for g := 0; g < nInit; g++ {
+		tid[g] = g
+	}
+	next := nInit
+	first := map[int]bool{}
+	nextOf := make([]int, len(s.Trace)) // index of the same goroutine's next event, -1 if none
+	last := map[int]int{}
+	for i := range s.Trace {
+		nextOf[i] = -1
+		if j, ok := last[s.Trace[i].G]; ok {
+			nextOf[j] = i
+		}
+		last[s.Trace[i].G] = i
+	}
+	var out []aEvent
+	for i, ev := range s.Trace {
+		if !first[ev.G] {
+			first[ev.G] = true
+			if _, ok := tid[ev.G]; !ok && ev.Op == "load" && stObj != 0 && eventObj(ev) == stObj {
+				tid[ev.G] = next
+				next++
+			}
+		}
+		t, ok := tid[ev.G]
+		if !ok {
+			continue
+		}
+		keep := false
+		switch ev.Op {
+		case "cas", "load", "swap", "store":
+			keep = stObj != 0 && eventObj(ev) == stObj
+		case "push", "popn", "len", "pop":
+			keep = rgObj != 0 && eventObj(ev) == rgObj
+		case "lock", "recv-begin", "recv-mid":
+			keep = true
+		case "rlock":
+			keep = true
+			if j := nextOf[i]; j >= 0 && s.Trace[j].Op == "push" && !(rgObj != 0 && eventObj(s.Trace[j]) == rgObj) {
+				keep = false
+			}
+		}
+		if keep {
+			out = append(out, aEvent{T: t, Op: ev.Op, A: ev.Args, R: ev.Res})
+		}
+	}
+	return out, next
 }
 
 func psBad(o any) bool {
@@ -208,7 +475,10 @@ func psBad(o any) bool {
 			}
 		}
 	}
-	return ob.Overlap || ob.Deadlock
+	if ob.Terminal && ob.Registered != nil && !*ob.Registered && ob.Status != nil && *ob.Status != 0 {
+		return true // the inbox of an unregistered actor is not stopped
+	}
+	return ob.Overlap || ob.HolderOverlap || ob.Deadlock
 }
 
 func runProcSched(raw json.RawMessage) (any, error) {
@@ -239,4 +509,71 @@ func runProcSched(raw json.RawMessage) (any, error) {
 	return res, nil
 }
 
-func init() { families["procsched"] = runProcSched }
+// runActorSched: the same scenarios; every kept execution (terminal ones, up to keep, and the bad
+// ones) is returned with its choices and its observation including the restricted trace, for the
+// lock-step replay in the product model (coq/Actor.v).
+func runActorSched(raw json.RawMessage) (any, error) {
+	var c procSchedCase
+	if err := json.Unmarshal(raw, &c); err != nil {
+		return nil, err
+	}
+	c.Trace = true
+	if !schedHasObjIDs(&vsched.Sched{}) {
+		return nil, fmt.Errorf("actorsched: the scheduler shims do not record object ids (tools/verifshim: Event.Obj, OpOn, ObjID)")
+	}
+	yatomic.Enabled, yring.Enabled, ysync.Enabled = true, true, true
+	defer func() { yatomic.Enabled, yring.Enabled, ysync.Enabled = false, false, false }()
+	mk := procScenario(c)
+	type kept struct {
+		Choices []int `json:"choices"`
+		Obs     any   `json:"obs"`
+	}
+	type result struct {
+		Executions int    `json:"executions"`
+		Steps      int    `json:"transitions"`
+		Deadlocks  int    `json:"deadlocks"`
+		Stuck      int    `json:"stuck"`
+		Samples    []kept `json:"samples"`
+		Bad        []kept `json:"bad"`
+	}
+	if c.Mode == "replay" {
+		out := vsched.Replay(mk, c.Choices, 20000)
+		r := result{Executions: 1, Steps: len(out.Choices), Samples: []kept{{out.Choices, out.Obs}}}
+		if out.Deadlock {
+			r.Deadlocks = 1
+		}
+		if out.Stuck {
+			r.Stuck = 1
+		}
+		if psBad(out.Obs) {
+			r.Bad = []kept{{out.Choices, out.Obs}}
+		}
+		return r, nil
+	}
+	rnd := rand.New(rand.NewSource(c.Seed))
+	if c.Walks == 0 {
+		c.Walks = 100
+	}
+	if c.Keep == 0 {
+		c.Keep = c.Walks
+	}
+	var res vsched.Result
+	if c.Mode == "pct" {
+		res = vsched.WalksPCT(mk, c.Walks, rnd.Intn, 3, 20000, c.Keep, psBad)
+	} else {
+		res = vsched.Walks(mk, c.Walks, rnd.Intn, 20000, c.Keep, psBad)
+	}
+	r := result{Executions: res.Executions, Steps: res.Steps, Deadlocks: res.Deadlocks, Stuck: res.Stuck}
+	for _, o := range res.Samples {
+		r.Samples = append(r.Samples, kept{o.Choices, o.Obs})
+	}
+	for _, o := range res.Bad {
+		r.Bad = append(r.Bad, kept{o.Choices, o.Obs})
+	}
+	return r, nil
+}
+
+func init() {
+	families["procsched"] = runProcSched
+	families["actorsched"] = runActorSched
+}
